@@ -1,0 +1,27 @@
+// Copyright (c) 2024, Intel Corporation.
+// SPDX-License-Identifier: BSD-3-Clause
+
+//go:build verif
+// +build verif
+
+package cpu
+
+import (
+	"os"
+	"strconv"
+)
+
+// DetectedArchLevel is the level CPUID reported before any override.
+var DetectedArchLevel = ArchLevel
+
+// With the verif tag, FASTGO_VERIF_ARCHLEVEL forces the acceleration level
+// for the whole process. Package-level variables are initialised before init
+// functions, and every package that reads ArchLevel imports this one, so the
+// forced value is what all of them see.
+func init() {
+	if v := os.Getenv("FASTGO_VERIF_ARCHLEVEL"); v != "" {
+		if n, err := strconv.Atoi(v); err == nil && n >= 0 && n <= 4 {
+			ArchLevel = n
+		}
+	}
+}
